@@ -80,8 +80,9 @@ func TestFidelity(t *testing.T) {
 					reqM, respM = mp.l2r, inverse(mp.l2r)
 				}
 				ns := interceptor.NewNamespaceNameTranslator(probe, reqM, respM)
-				saReq := map[string]map[string]string{"nsid": {"CustomA": "RemoteA", "CustomB": "RemoteB"}}
-				saResp := map[string]map[string]string{"nsid": {"RemoteA": "CustomA", "RemoteB": "CustomB"}}
+				// (one-to-one, with a chain and a swap: the local and the remote key sets overlap)
+				saReq := map[string]map[string]string{"nsid": {"CustomA": "RemoteA", "CustomB": "RemoteB", "ChainA": "ChainB", "ChainB": "ChainC", "SwapX": "SwapY", "SwapY": "SwapX"}}
+				saResp := map[string]map[string]string{"nsid": {"RemoteA": "CustomA", "RemoteB": "CustomB", "ChainB": "ChainA", "ChainC": "ChainB", "SwapY": "SwapX", "SwapX": "SwapY"}}
 				sa := interceptor.NewSearchAttributeTranslator(probe, saReq, saResp)
 				// domain: names that are keys of the request map, or outside keys and values
 				var pool []string
@@ -89,7 +90,7 @@ func TestFidelity(t *testing.T) {
 					pool = append(pool, k)
 				}
 				pool = append(pool, mp.outside...)
-				msg := gen.Populate(r.md, popOpts(rng, pool, []string{"CustomA", "CustomB", "Other1", "Other2"}))
+				msg := gen.Populate(r.md, popOpts(rng, pool, []string{"CustomA", "CustomB", "Other1", "Other2", "ChainA", "ChainB", "SwapX", "SwapY"}))
 				counts["messages"]++
 				// (1)+(2): after request-side translation only name sites / SA keys differ
 				t1 := proto.Clone(msg)
@@ -186,6 +187,57 @@ func TestFidelity(t *testing.T) {
 					classes = append(classes, r.String()+"|"+mp.name+"|"+server+"|"+p.String())
 				}
 			}
+		}
+		out.End(rec.Line{Case: name, Viol: dedupe(viol), Counts: counts, Classes: classes})
+	}
+	// search-attribute keys under a one-to-one mapping whose local and remote key sets overlap (chain and swap),
+	// all affected keys in one container: nothing may be lost, the round trip restores the original
+	saOvReq := map[string]map[string]string{"nsid": {"ChainA": "ChainB", "ChainB": "ChainC", "SwapX": "SwapY", "SwapY": "SwapX"}}
+	saOvResp := map[string]map[string]string{"nsid": {"ChainB": "ChainA", "ChainC": "ChainB", "SwapY": "SwapX", "SwapX": "SwapY"}}
+	saOv := interceptor.NewSearchAttributeTranslator(probe, saOvReq, saOvResp)
+	for _, r := range roots {
+		if r.m.Service != gen.AdminServiceName {
+			continue
+		}
+		paths := gen.EnumeratePaths(r.md, isSAContainer, 2, 14, 100000)
+		if len(paths) == 0 {
+			continue
+		}
+		idx++
+		name := "sa-overlap/" + r.String()
+		if !rec.Want(idx, name) {
+			continue
+		}
+		out.Begin(name, nil)
+		var viol []rec.Violation
+		counts := map[string]int64{}
+		var classes []string
+		for _, p := range paths {
+			for rep := 0; rep < 4; rep++ { // (Go map iteration order varies from run to run of the translator)
+				msg := gen.New(r.md)
+				fwd, back, mapping := saOv.TranslateRequest, saOv.TranslateResponse, saOvReq["nsid"]
+				keys := []string{"ChainA", "ChainB", "SwapX", "SwapY", "Other1"}
+				if r.isResp {
+					fwd, back, mapping = saOv.TranslateResponse, saOv.TranslateRequest, saOvResp["nsid"]
+					keys = []string{"ChainB", "ChainC", "SwapX", "SwapY", "Other1"}
+				}
+				putSA(msg, p, keys)
+				t1 := proto.Clone(msg)
+				if _, err := fwd(t1); err != nil {
+					continue
+				}
+				counts["sa_overlap_cases"]++
+				want := proto.Clone(msg)
+				gen.TranslateSearchAttributes(want, mapping)
+				if !equalModuloBlobEncoding(t1, want) {
+					viol = append(viol, violation("C13", "sa-overlapping-mapping-wrong:"+r.String(), fmt.Sprintf("%s: keys ChainA,ChainB,SwapX,SwapY,Other1 at %s under {ChainA->ChainB, ChainB->ChainC, SwapX<->SwapY}: %d keys before, %d after, or a payload moved to the wrong key", r, p, len(gen.SASites(msg)), len(gen.SASites(t1))), jsonOf(t1)))
+					continue
+				}
+				if _, err := back(t1); err == nil && !equalModuloBlobEncoding(t1, msg) {
+					viol = append(viol, violation("C13", "sa-round-trip-not-identity:"+r.String(), fmt.Sprintf("%s: search-attribute round trip at %s under an overlapping one-to-one mapping does not restore the original", r, p), jsonOf(t1)))
+				}
+			}
+			classes = append(classes, "sa-overlap:"+r.String()+":"+p.String())
 		}
 		out.End(rec.Line{Case: name, Viol: dedupe(viol), Counts: counts, Classes: classes})
 	}
